@@ -27,30 +27,30 @@ func isDoneChan(ch ssa.Value) bool {
 
 // blocking primitive callees (by resolved name).
 var blockingCallees = map[string]string{
-	"time.Sleep":                      "sleep",
-	"net.Dial":                        "network dial",
-	"net.DialTimeout":                 "network dial",
-	"net.DialTCP":                     "network dial",
-	"net.DialUDP":                     "network dial",
-	"(*net.Dialer).Dial":              "network dial",
-	"(*net.Dialer).DialContext":       "network dial",
-	"net.ResolveIPAddr":               "DNS resolution",
-	"net.LookupIP":                    "DNS resolution",
-	"net.LookupHost":                  "DNS resolution",
-	"net/http.Post":                   "HTTP request",
-	"net/http.Get":                    "HTTP request",
-	"(*net/http.Client).Do":           "HTTP request",
-	"(*sync.WaitGroup).Wait":          "WaitGroup wait",
-	"os.ReadFile":                     "file I/O",
-	"os.Open":                         "file I/O",
-	"os.WriteFile":                    "file I/O",
-	"(net.Conn).Read":                 "connection I/O",
-	"(net.Conn).Write":                "connection I/O",
-	"(io.Reader).Read":                "stream I/O",
-	"(io.Writer).Write":               "stream I/O",
-	"io.Copy":                         "stream I/O",
-	"io.ReadAll":                      "stream I/O",
-	"io.ReadFull":                     "stream I/O",
+	"time.Sleep":                "sleep",
+	"net.Dial":                  "network dial",
+	"net.DialTimeout":           "network dial",
+	"net.DialTCP":               "network dial",
+	"net.DialUDP":               "network dial",
+	"(*net.Dialer).Dial":        "network dial",
+	"(*net.Dialer).DialContext": "network dial",
+	"net.ResolveIPAddr":         "DNS resolution",
+	"net.LookupIP":              "DNS resolution",
+	"net.LookupHost":            "DNS resolution",
+	"net/http.Post":             "HTTP request",
+	"net/http.Get":              "HTTP request",
+	"(*net/http.Client).Do":     "HTTP request",
+	"(*sync.WaitGroup).Wait":    "WaitGroup wait",
+	"os.ReadFile":               "file I/O",
+	"os.Open":                   "file I/O",
+	"os.WriteFile":              "file I/O",
+	"(net.Conn).Read":           "connection I/O",
+	"(net.Conn).Write":          "connection I/O",
+	"(io.Reader).Read":          "stream I/O",
+	"(io.Writer).Write":         "stream I/O",
+	"io.Copy":                   "stream I/O",
+	"io.ReadAll":                "stream I/O",
+	"io.ReadFull":               "stream I/O",
 	"(*github.com/refraction-networking/conjure/pkg/station/lib.RegistrationManager).PhantomIsLive": "liveness probe",
 }
 
